@@ -86,6 +86,11 @@ CLAIMED = {
             "the stream length; every strict prefix under three reader kinds must give an error or an identical forest; every sink failure offset and failing call must give an error; nothing may panic. "
             "A second search makes serialize/restore a transition followed by every later block and by Undo of pre-restore blocks, with the full observational oracle and a differential comparison against a "
             "twin that was never serialized.", "6 C13"),
+    "C15": ("sched", "exhaustive enumeration of all block histories (no de-duplication) x all memory limits vs the model's birth/death table",
+            "Every block history with at most Nmax leaves ever added and at most D blocks is summarised to a fresh CachingScheduleTracker (reference proof targets, addition counts) and "
+            "GenerateCachingSchedule is evaluated for every memory limit from 1 to leaves-ever-added+1; each scheduled position must be the insertion slot of a leaf added in that block and deleted later, "
+            "ascending without repeats, never more than the limit alive at once, complete at unbounded memory, no panic. Six signatures of two genuine defects (emptied tree, overwritten empty root) are "
+            "recorded as known findings KF-2..KF-7, attributed by signature (incl. a model-level trigger predicate) and exact case set; any other violation is reported.", "6 C15"),
 }
 
 NOT_YET = {
@@ -136,6 +141,8 @@ def main():
              "kind_free_text": "exhaustive enumeration of proof-helper inputs per accumulator state against the reference forest"},
             {"name": "faults", "path": "/verif/vmc/mc/faults.go", "serves_properties": ["C13"],
              "kind_free_text": "fault enumeration: every reader chunking of a closed family, every truncation point, every sink failure offset/call, on every state of the explicit-state search; map iteration order owned by the harness"},
+            {"name": "sched", "path": "/verif/vmc/mc/schedule.go", "serves_properties": ["C15"],
+             "kind_free_text": "exhaustive enumeration of block histories and memory limits for the caching-schedule tracker against the model's leaf birth/death table"},
             {"name": "geom", "path": "/verif/vmc/mc/geom.go", "serves_properties": ["C16"],
              "kind_free_text": "exhaustive enumeration of the argument space of the pure position functions (bounded heights exhaustive, boundary grid to 63 rows) against the reference geometry"},
         ],
